@@ -333,7 +333,7 @@ pub fn run(mut chk: Check) -> ! {
         }
         chk.explicit("limit", &lim, case_limit);
     }
-    let n = chk.scale(1200, 60_000);
+    let n = chk.scale(1200, 12_000);
     chk.campaign(CampaignCfg::new("roundtrip", n).len(0, 200), case_roundtrip);
     chk.campaign(CampaignCfg::new("hostile", n * 30).len(0, 200), case_hostile);
     chk.finish()
